@@ -90,33 +90,47 @@ def _prec(t) -> int:
     return _PREC_ATOM
 
 
-def _lit(t) -> str:
+KEYWORDS = ("true", "false", "null", "and", "or", "not", "in", "eq", "ne", "lt", "le", "gt", "ge",
+            "add", "sub", "mul", "div", "mod")
+
+
+def _lit(t, kw=None) -> str:
+    kw = kw or (lambda w: w)
     k = t[0]
     if k == "int":
         return str(t[1])
     if k == "str":
         return "'" + t[1].replace("'", "''") + "'"
     if k == "bool":
-        return "true" if t[1] else "false"
+        return kw("true") if t[1] else kw("false")
     if k == "null":
-        return "null"
+        return kw("null")
     if k == "dur":
         return f"duration'{t[1]}'"
     return str(t[1])          # float, date, dt, guid: their OData spelling is the payload
 
 
-def to_text(t, full: bool = False) -> str:
-    """OData text of a term.  full=False: minimal parentheses; full=True: every operator application wrapped."""
+def to_text(t, full: bool = False, kw=None) -> str:
+    """OData text of a term.  full=False: minimal parentheses; full=True: every operator application wrapped.
+    kw: optional re-spelling of the keywords in KEYWORDS (keyword -> text), e.g. str.upper."""
     k = t[0]
     if k == "field":
         return t[1]
     if k in ("int", "str", "bool", "null", "float", "date", "dt", "dur", "guid"):
-        return _lit(t)
+        return _lit(t, kw)
     if k == "call":
-        return t[1] + "(" + ",".join(to_text(a, full) for a in t[2]) + ")"
+        return t[1] + "(" + ",".join(to_text(a, full, kw) for a in t[2]) + ")"
+    if k == "path":          # to-one navigation a/b/c
+        return "/".join(t[1])
+    if k == "lambda":        # ('lambda', 'any'|'all', path, var|None, body|None)
+        owner = "/".join(t[2])
+        if t[3] is None:
+            return f"{owner}/{t[1]}()"
+        return f"{owner}/{t[1]}({t[3]}: {to_text(t[4], full, kw)})"
+    w = kw or (lambda x: x)
 
     def sub(c, need: bool) -> str:
-        s = to_text(c, full)
+        s = to_text(c, full, kw)
         atom = _prec(c) == _PREC_ATOM
         if (need or (full and not atom)):
             return "(" + s + ")"
@@ -126,16 +140,16 @@ def to_text(t, full: bool = False) -> str:
         op = k if k in ("and", "or") else t[1]
         l, r = (t[1], t[2]) if k in ("and", "or") else (t[2], t[3])
         p = _PREC_BIN[op]
-        return sub(l, _prec(l) < p) + f" {op} " + sub(r, _prec(r) <= p)       # all binary operators are left-assoc
+        return sub(l, _prec(l) < p) + f" {w(op)} " + sub(r, _prec(r) <= p)       # all binary operators are left-assoc
     if k == "not":
-        return "not " + sub(t[1], _prec(t[1]) < _PREC_UNARY)
+        return w("not") + " " + sub(t[1], _prec(t[1]) < _PREC_UNARY)
     if k == "neg":
         c = t[1]
         # -7 would lex as one INTEGER token and --x is not worth the ambiguity: parenthesise literals and negations
         need = _prec(c) < _PREC_UNARY or c[0] in ("neg", "int", "float", "not")
         return "-" + sub(c, need)
     if k == "in":
-        return sub(t[1], _prec(t[1]) < _PREC_ATOM) + " in (" + ", ".join(to_text(i, full) for i in t[2]) + ")"
+        return sub(t[1], _prec(t[1]) < _PREC_ATOM) + f" {w('in')} (" + ", ".join(to_text(i, full, kw) for i in t[2]) + ")"
     raise ValueError(f"cannot print {t!r}")
 
 
@@ -143,8 +157,10 @@ def to_text(t, full: bool = False) -> str:
 def map_term(t, f):
     """Bottom-up rewrite of a term."""
     k = t[0]
-    if k in ("field", "int", "str", "bool", "null", "float", "date", "dt", "dur", "guid"):
+    if k in ("field", "int", "str", "bool", "null", "float", "date", "dt", "dur", "guid", "path"):
         return f(t)
+    if k == "lambda":
+        return f((k, t[1], t[2], t[3], map_term(t[4], f) if t[4] is not None else None))
     if k in ("neg", "not"):
         return f((k, map_term(t[1], f)))
     if k in ("and", "or"):
@@ -176,6 +192,13 @@ def subterms(t) -> Iterator[tuple]:
     elif k == "call":
         for a in t[2]:
             yield from subterms(a)
+    elif k == "lambda" and t[4] is not None:
+        yield from subterms(t[4])
+
+
+def rename_fields(t, mapping: Dict[str, str]):
+    """Rename ('field', x) leaves (the generator's a b s u f -> the columns of a concrete model)."""
+    return map_term(t, lambda x: ("field", mapping.get(x[1], x[1])) if x[0] == "field" else x)
 
 
 def int_slots(t) -> int:
@@ -211,7 +234,7 @@ def replace_ints(t, mapping: Dict[int, int]) -> tuple:
 
 
 def size(t) -> int:
-    return sum(1 for x in subterms(t) if x[0] in ("neg", "not", "and", "or", "cmp", "arith", "in", "call"))
+    return sum(1 for x in subterms(t) if x[0] in ("neg", "not", "and", "or", "cmp", "arith", "in", "call", "lambda"))
 
 
 def features(t) -> List[str]:
@@ -223,6 +246,7 @@ def features(t) -> List[str]:
             out.add("unary-minus")
         elif k == "arith":
             out.add("arith")
+            out.add("op:" + x[1])
             for c, right in ((x[2], False), (x[3], True)):
                 if c[0] == "arith":
                     pc, p = _PREC_BIN[c[1]], _PREC_BIN[x[1]]
@@ -238,6 +262,11 @@ def features(t) -> List[str]:
             if x[2][0] == "null" or x[3][0] == "null":
                 out.add("null-test")
             for c in (x[2], x[3]):
+                if c[0] == "cmp" and (c[2][0] in ("arith", "neg") or c[3][0] in ("arith", "neg")):
+                    out.add("cmp-operand-is-cmp-of-arith")
+                if c[0] == "cmp" and "null" in (c[2][0], c[3][0]) and any(
+                        o[0] in ("int", "str", "bool") for o in (c[2], c[3])):
+                    out.add("constant-null-test-as-operand")
                 if c[0] == "call" and c[1] in STR_FUNCS_BOOL:
                     out.add("boolfunc-as-compare-operand")
                 if c[0] == "in":
@@ -261,6 +290,12 @@ def features(t) -> List[str]:
                     out.add("like-nonliteral-pattern")
         elif k == "in":
             out.add("in")
+        elif k == "bool":
+            out.add("bool-literal")
+        elif k == "lambda":
+            out.add("lambda:" + x[1])
+        elif k == "path":
+            out.add("path")
         elif k == "not":
             out.add("not")
             if x[1][0] in ("cmp", "in", "call", "field"):
